@@ -143,6 +143,11 @@ fn(H2 + ".stream_send", params={"event": _ev.STREAM_EVENTS}, task="app", model_o
         "count_calls('StreamBuffer.push') == 1 and call_args('StreamBuffer.push')[1] == event.data)", "C02,C10"),
        ("C02.h2.end", "implies(isinstance(event, (EndBody, EndData)) and in_map(old(self.stream_buffers), event.stream_id), count_calls('StreamBuffer.set_complete') == 1)", "C02"),
        ("C02.h2.trailers", "implies(isinstance(event, Trailers) and n_emitted('h2') == 1, emitted('h2')[0][0] == 'send_headers' and emitted('h2')[0][1] == event.stream_id and emitted('h2')[0][2] == event.headers)", "C02"),
+       # C02 "trailers are emitted ... on HTTP/2+ to clients that sent te: trailers": h2 accepts a
+       # second header block on a stream only with END_STREAM; without it the block is refused
+       # *after* it went through the HPACK encoder, the error is swallowed here, the trailers are
+       # lost and every later response of the connection is undecodable for the client (finding F2c)
+       ("C02.h2.trailers-end-stream", "implies(isinstance(event, Trailers) and n_emitted('h2') == 1, emitted('h2')[0][3] == True)", "C02"),
        # C07 (HTTP/2): the end of a stream is reported together with the connection's idleness
        ("C07.h2.idle-report", "implies(isinstance(event, StreamClosed) and n_emitted('h2_refused') == 0, last_is('sent', Updated))", "C07"),
        ("C05.h2.reset", "implies(isinstance(event, StreamClosed), not h2_sendable(self.connection, event.stream_id) "
